@@ -170,8 +170,12 @@ func (fr *frame) block(b *ssa.BasicBlock, st *state) {
 			vc.closures[r] = closureInfo{fn: fn, mk: x, fr: fr}
 			vc.assumeG(fmt.Sprintf("(= (tyof %s) %d)", r, -1000-vc.closureID(fn)))
 		case *ssa.MakeInterface:
-			if _, isPtr := x.X.Type().Underlying().(*types.Pointer); isPtr {
+			if pt, isPtr := x.X.Type().Underlying().(*types.Pointer); isPtr {
 				fr.vals[x] = fr.val(x.X)
+				// the dynamic type of the interface value is the static type of the pointer put into it
+				if _, isStruct := pt.Elem().Underlying().(*types.Struct); isStruct {
+					vc.assumeG(fmt.Sprintf("(=> (distinct %s nil) (= (tyof %s) %d))", fr.val(x.X), fr.val(x.X), vc.w.typeID(pt.Elem())))
+				}
 			} else {
 				// boxed non-pointer value: a fresh object
 				r := fr.newObj(st, x, 0)
